@@ -12,9 +12,9 @@ def ids_of(attrs):
     return {n: i for i, n in enumerate(sorted(NAMES))}
 
 
-def gen_structure(rng, max_attrs=6, max_cells=1500, max_cliques=6):
+def gen_structure(rng, max_attrs=6, max_cells=1500, max_cliques=6, force_ring=False):
     while True:
-        k = rng.randint(2, max_attrs)
+        k = rng.randint(2, max_attrs) if not force_ring else rng.randint(5, max(5, max_attrs))
         attrs = rng.sample(NAMES[:max_attrs + 1], k)
         sizes = [rng.choice([1, 2, 2, 2, 3, 3, 4]) for _ in attrs]
         n = 1
@@ -24,11 +24,11 @@ def gen_structure(rng, max_attrs=6, max_cells=1500, max_cliques=6):
             break
     ncl = rng.randint(1, max_cliques)
     cliques = []
-    shape_kind = rng.random()
+    shape_kind = rng.random() if not force_ring else 0.0
     if shape_kind < 0.3 and k >= 4:
         # structured stream: a chordless ring (needs dependent fill-in edges), optionally with a chord / pendant clique
         ring = list(attrs); rng.shuffle(ring)
-        ring = ring[:rng.randint(4, k)]
+        ring = ring[:(rng.randint(4, k) if not force_ring else rng.randint(5, k))]       # force_ring: a chordless cycle of length >= 5 (fill-in must cascade)
         for i in range(len(ring)):
             e = [ring[i], ring[(i + 1) % len(ring)]]
             rng.shuffle(e)
